@@ -148,8 +148,11 @@ structure GoodDesc (d : Str) : Prop where
   noDef1 : contains d "Defaults".toList = false
   noDef2 : contains d "defaults".toList = false
   noAnn : ∀ v ∈ announceVariants, find (lower d) (lower v) = none
-  noParen : '(' ∉ lower d
-  goodBase : C01.GoodBase (C01.baseOf d)
+  /-- no parenthesised announce phrase `(<variant>` (case-insensitively) -/
+  noParenAnn : ∀ w ∈ announceVariants, contains (lower d) ('(' :: lower w) = false
+  /-- the emitted ` Defaults to ` is the first `defaults to ` of the completed line -/
+  noEarly : NoEarly C01.ann (lower (C01.baseOf d) ++ [' '])
+  noPOpt : startsWith d ['(','O','p','t','i','o','n','a','l',')'] = false
   noOpt : startsWith d ['O','p','t','i','o','n','a','l'] = false
 
 /-- **types** the theorems cover -/
@@ -274,6 +277,7 @@ structure GoodText (t : Str) : Prop where
   headNS : HeadNS t
   lastNS : LastNS t
   noOpt : startsWith t ['O','p','t','i','o','n','a','l'] = false
+  noPOpt : startsWith t ['(','O','p','t','i','o','n','a','l',')'] = false
 
 theorem docText_good (p : Param) (edd : Bool) (hp : GoodEntry p) : GoodText (docText p edd) := by
   unfold docText
@@ -281,7 +285,7 @@ theorem docText_good (p : Param) (edd : Bool) (hp : GoodEntry p) : GoodText (doc
   | none => exact absurd hd hp.docSome
   | some d =>
     have g := hp.doc d hd
-    have gd : GoodText d := ⟨g.ne, g.noBreak, g.noTok, g.headNS, g.lastNS, g.noOpt⟩
+    have gd : GoodText d := ⟨g.ne, g.noBreak, g.noTok, g.headNS, g.lastNS, g.noOpt, g.noPOpt⟩
     cases hv : (if edd then p.default else Option.none) with
     | none => exact gd
     | some v =>
@@ -300,7 +304,7 @@ theorem docText_good (p : Param) (edd : Bool) (hp : GoodEntry p) : GoodText (doc
         · exact ⟨cs0, by rw [e, hd0], Or.inl rfl⟩
         · exact ⟨cs0 ++ ['.'], by rw [e, hd0]; rfl, Or.inr rfl⟩
       have hrcol : ':' ∉ renderVal v := fun h => (rch _ h).1 rfl
-      refine ⟨?_, ?_, ?_, ?_, ?_, ?_⟩
+      refine ⟨?_, ?_, ?_, ?_, ?_, ?_, ?_⟩
       · obtain ⟨tl, e, _⟩ := hbase; rw [e]; simp
       · intro c hc
         simp only [List.mem_append] at hc
@@ -359,6 +363,16 @@ theorem docText_good (p : Param) (edd : Bool) (hp : GoodEntry p) : GoodText (doc
           have : ['.'] ++ (defaultsTo ++ renderVal v) = '.' :: (defaultsTo ++ renderVal v) := rfl
           rw [this, isPrefixOf_append_of_notin _ d _ '.' (by decide)]
           exact g.noOpt
+      · unfold startsWith
+        rcases baseOf_cases d with e | e
+        · rw [e, List.append_assoc]
+          have : defaultsTo ++ renderVal v = ' ' :: (defaultsTo.drop 1 ++ renderVal v) := rfl
+          rw [this, isPrefixOf_append_of_notin _ d _ ' ' (by decide)]
+          exact g.noPOpt
+        · rw [e, List.append_assoc, List.append_assoc]
+          have : ['.'] ++ (defaultsTo ++ renderVal v) = '.' :: (defaultsTo ++ renderVal v) := rfl
+          rw [this, isPrefixOf_append_of_notin _ d _ '.' (by decide)]
+          exact g.noPOpt
 
 /-! ### the shape of the whole text -/
 
